@@ -41,7 +41,7 @@ RULE = ("three case families. 'steps': pairwise covering array over {grid parity
         "tilts, orders. Non-trivial = incident intensity > 0; distinct = distinct case dicts")
 BOUNDS = {
     "gpts": [[16, 16], [15, 15], [16, 15], [9, 32], [31, 12], [24, 17], [8, 8], [21, 20]],
-    "sampling_A": [0.04, 0.25], "energy_eV": [2e4, 3e5], "slice_thickness_A": [0.2, 4.0], "slices": [1, 5],
+    "sampling_A": [0.04, 0.25], "anisotropy_factor": [1.3, 2.5], "energy_eV": [2e4, 3e5], "slice_thickness_A": [0.2, 4.0], "slices": [1, 5],
     "tilt_mrad": [-60, 60], "orders": [1, 2], "phase_scale_rad": [0.1, 1.0, math.pi, 10.0],
     "random_per_family": {"quick": {"steps": 40, "vacuum": 16, "pipeline": 0}, "thorough": {"steps": 900, "vacuum": 300, "pipeline": 40}},
 }
@@ -199,7 +199,11 @@ def _wave(kind, shape, samp, rng, edge=None):
     elif kind == "bandlimited":
         a, _ = _bandlimited(shape, samp, float(rng.uniform(0.2, 0.98)), rng)
     elif kind == "plane":
-        m, n = int(rng.integers(-2, 3)), int(rng.integers(-2, 3))
+        # a discrete plane wave whose frequency lies inside the (circular) antialiasing aperture
+        cutoff, taper = _aperture_radius(samp)
+        cand = [(m, n) for m in range(-3, 4) for n in range(-3, 4)
+                if math.hypot(m / (nx * samp[0]), n / (ny * samp[1])) <= 0.98 * (cutoff - taper)]
+        m, n = cand[int(rng.integers(len(cand)))]
         x, y = np.arange(nx)[:, None], np.arange(ny)[None, :]
         a = np.broadcast_to(np.exp(2j * np.pi * (m * x / nx + n * y / ny)), shape).copy()
     elif kind == "delta":
